@@ -80,7 +80,7 @@ Definition meth_bool (o : binop) (x : bool) (r : value) : dres :=
 Definition meth_str (o : binop) (s : list Z) (r : value) : dres :=
   match o, r with
   | BAdd, VStr t => DOk (VStr (s ++ t))
-  | BEq, VStr t => DOk (VBool (zlist_eqb s t))
+  | BEq, VStr t => DOk (VBool (str_eqb s t))       (* unicodedata.normalize("NFC", .) on both sides *)
   | _, _ => DUndef
   end.
 
